@@ -128,6 +128,14 @@ on_trigger(int cam)
         }
 }
 
+/* C04/C02: storage reads packets in place; the stream's sink must still hold the window mapped */
+static void
+on_append(int sto, const struct VideoFrame* frames, size_t nbytes)
+{
+    for (int i = 0; i < 2; ++i)
+        if (((RT->valid_video_streams >> i) & 1) && RT->video[i].sink.storage && ((struct mock_sto*)RT->video[i].sink.storage)->id == sto)
+            VASSERT(RT->video[i].sink.reader.state == ChannelState_Mapped, "C04: packet handed to storage after its region was released to the writer (zero-copy window no longer mapped)");
+}
 static struct AcquireProperties props;
 static void
 fill_props(int stream, int cam, int sto, uint64_t nframes, uint32_t avg)
@@ -186,6 +194,7 @@ int
 main(void)
 {
     mock_reset();
+    mock_append_hook = on_append;
     struct AcquireRuntime* rt = acquire_init(reporter);
     VASSUME(rt != 0);
     RT = containerof(rt, struct runtime, handle);
